@@ -50,6 +50,7 @@ type exCall struct {
 }
 
 type exRun struct {
+	rlShared    bigbuff.ExclusiveOption
 	rejected    atomic.Int64 // invalid (panicking, recovered) calls made in between
 	c           *core.Ctx
 	e           *bigbuff.Exclusive
@@ -259,7 +260,11 @@ func (r *exRun) issue(call *exCall, rng interface{ IntN(int) int }) {
 		case "value":
 			opts = append(opts, bigbuff.ExclusiveValue(r.valueFn(call, body, false)))
 		case "ratelimit":
-			opts = append(opts, bigbuff.ExclusiveRateLimit(r.rlCtx, time.Duration(50+rng.IntN(600))*time.Microsecond), bigbuff.ExclusiveValue(r.valueFn(call, body, false)))
+			rl := r.rlShared // one option value shared by every key and caller of the run (options are plain values)
+			if rl == nil || rng.IntN(2) == 0 {
+				rl = bigbuff.ExclusiveRateLimit(r.rlCtx, time.Duration(50+rng.IntN(600))*time.Microsecond)
+			}
+			opts = append(opts, rl, bigbuff.ExclusiveValue(r.valueFn(call, body, false)))
 		default:
 			opts = append(opts, bigbuff.ExclusiveWork(r.workFn(call, body, tail)))
 		}
@@ -292,6 +297,7 @@ func runExclusive(c *core.Ctx, keys, callers, perCaller int) *exRun {
 		defer t.Stop()
 		defer cancel()
 	}
+	r.rlShared = bigbuff.ExclusiveRateLimit(r.rlCtx, time.Duration(100+c.Rng.IntN(500))*time.Microsecond)
 	var wg sync.WaitGroup
 	for cl := 0; cl < callers; cl++ {
 		seed := c.Rng.Uint64()
